@@ -46,7 +46,9 @@ func vfRecover(dir string) (vfRecovered, bool) {
 	}
 	files = append(files, appendFiles...)
 	lerr, _ := aof.LoadAofFiles(files, vfBaseTime+1, func(filename string, aofFile *AofFile, lock *AofLock, firstLock bool) (bool, error) {
-		return true, aof.LoadLock(lock)
+		e := aof.LoadLock(lock)
+		vfDrainAof(env.db) // record by record: the replay channel's queue is bounded
+		return true, e
 	})
 	if lerr != nil {
 		return out, false
